@@ -1,11 +1,34 @@
 /* C06: any byte string offered as TPM 2 state is rejected or accepted safely */
 static long c06_n, c06_acc, c06_rej;
 
+static uint32_t c06_failcc;   /* the command of the workout that was answered TPM_RC_FAILURE */
+static Rsp c06_run(Buf *b) { Rsp r = run(b); if (r.rc == RC_FAILURE && !c06_failcc) c06_failcc = g32(b->p + 6); return r; }
 static int c06_alive(Buf *b) {   /* does the running TPM answer commands? */
+    c06_failcc = 0;
     Rsp r = tpm2_startup(b, 0);
     if (r.len < 10) return 0;
-    cmd_begin(b, ST_NO_SESSIONS, CC_GetCapability); b_u32(b, 6); b_u32(b, 0x100); b_u32(b, 4); Rsp c = run(b);
-    return c.len >= 10 && (c.rc == 0 || c.rc == RC_FAILURE) ? (c.rc == 0 ? 1 : 2) : 0;
+    cmd_begin(b, ST_NO_SESSIONS, CC_GetCapability); b_u32(b, 6); b_u32(b, 0x100); b_u32(b, 4); Rsp c = c06_run(b);
+    if (!(c.len >= 10 && c.rc == 0)) return c.len >= 10 && c.rc == RC_FAILURE ? 2 : 0;
+    /* a short workout through the parts of the state a blob carries: session slots and context counters, an object slot, the
+       hash machinery, NV space — an accepted blob must give a TPM that does all of this without falling into failure mode */
+    { uint8_t nonce[16] = {0}; cmd_begin(b, ST_NO_SESSIONS, CC_StartAuthSession); b_u32(b, RH_NULL); b_u32(b, RH_NULL); b_2b(b, nonce, 16); b_u16(b, 0); b_u8(b, 0); b_u16(b, ALG_NULL); b_u16(b, ALG_SHA256);
+      Rsp s = c06_run(b); if (s.rc == RC_FAILURE) return 2;
+      if (s.rc == 0 && s.len >= 14) { uint32_t sh = g32(s.p + 10);
+          cmd_begin(b, ST_NO_SESSIONS, CC_ContextSave); b_u32(b, sh); Rsp cs = c06_run(b); if (cs.rc == RC_FAILURE) return 2;
+          if (cs.rc == 0 && cs.len > 10) { uint8_t *ctx = malloc(cs.len); uint32_t cn = cs.len - 10; memcpy(ctx, cs.p + 10, cn);
+              cmd_begin(b, ST_NO_SESSIONS, CC_ContextLoad); b_bytes(b, ctx, cn); Rsp cl = c06_run(b); free(ctx); if (cl.rc == RC_FAILURE) return 2; }
+          cmd_begin(b, ST_NO_SESSIONS, CC_FlushContext); b_u32(b, sh); if (c06_run(b).rc == RC_FAILURE) return 2; } }
+    { Buf t = {0}; tmpl_keyedhash(&t, NULL, 0);
+      cmd_begin(b, ST_SESSIONS, CC_CreatePrimary); b_u32(b, RH_NULL); auth_pw(b, "", 0); b_u16(b, 4); b_u16(b, 0); b_u16(b, 0); b_2b(b, t.p, t.n); b_u16(b, 0); b_u32(b, 0); Rsp k = c06_run(b); b_free(&t);
+      if (k.rc == RC_FAILURE) return 2;
+      if (k.rc == 0 && k.len >= 14) { uint32_t kh = g32(k.p + 10);
+          cmd_begin(b, ST_SESSIONS, CC_HMAC); b_u32(b, kh); auth_pw(b, "", 0); b_2b(b, "alive", 5); b_u16(b, ALG_SHA256); if (c06_run(b).rc == RC_FAILURE) return 2;
+          cmd_begin(b, ST_NO_SESSIONS, CC_ContextSave); b_u32(b, kh); if (c06_run(b).rc == RC_FAILURE) return 2;
+          cmd_begin(b, ST_NO_SESSIONS, CC_FlushContext); b_u32(b, kh); if (c06_run(b).rc == RC_FAILURE) return 2; } }
+    cmd_begin(b, ST_NO_SESSIONS, CC_PCR_Read); b_u32(b, 1); b_u16(b, ALG_SHA256); b_u8(b, 3); b_u8(b, 1); b_u8(b, 0); b_u8(b, 1); if (c06_run(b).rc == RC_FAILURE) return 2;
+    cmd_begin(b, ST_NO_SESSIONS, CC_ReadClock); if (c06_run(b).rc == RC_FAILURE) return 2;
+    cmd_begin(b, ST_NO_SESSIONS, CC_GetCapability); b_u32(b, 1); b_u32(b, 0x01000000u); b_u32(b, 8); if (c06_run(b).rc == RC_FAILURE) return 2;
+    return 1;
 }
 /* one mutated blob through the three doors. kind: 0 perm, 1 vol. good blobs given for the other type. */
 static void c06_try(Buf *b, int kind, const uint8_t *m, uint32_t mn, const Blob *gperm, const Blob *gvol, const char *desc) {
@@ -20,9 +43,12 @@ static void c06_try(Buf *b, int kind, const uint8_t *m, uint32_t mn, const Blob 
     unsigned char *cp = NULL; uint32_t cl = 0; TPM_RESULT g1 = TPMLIB_GetState(TPMLIB_STATE_PERMANENT, &cp, &cl);
     int cached = (g1 == 0 && cp != NULL && cl != 0 && cl != 0xFFFFFFFFu); free(cp);
     TPM_RESULT mi = TPMLIB_MainInit();
+    /* a TPM that comes up in failure mode: either the blob said so (it carries g_inFailureMode and the description of the failure:
+       nothing was recorded by this process) or something failed while the blob was taken in (a failure site is on record) */
+    int mi_blobfail = mi != 0 && g_inFailureMode && s_failLine == 0 && s_failFunction == 0;
     int alive = mi == 0 ? c06_alive(b) : -1;
     int manufactured = TPMLIB_WasManufactured();
-    tr("door1 n=%ld prev=%u setstate=%u cached_after=%d maininit=%u alive=%d manufactured=%d", c06_n, s0, s1, cached, mi, alive, manufactured);
+    tr("door1 n=%ld prev=%u setstate=%u cached_after=%d maininit=%u alive=%d manufactured=%d failcc=%x failfn=%08x failline=%u blobfail=%d", c06_n, s0, s1, cached, mi, alive, manufactured, alive == 2 ? c06_failcc : 0, alive == 2 ? s_failFunction : 0, alive == 2 ? s_failLine : 0, mi_blobfail);
     if (s1 == 0) c06_acc++; else c06_rej++;
     /* door 2: the load callback (ValidateState then MainInit) */
     TPMLIB_Terminate(); storage_reset();
@@ -30,9 +56,9 @@ static void c06_try(Buf *b, int kind, const uint8_t *m, uint32_t mn, const Blob 
     else { blob_set(&g_store[ST_PERM], gperm->p, gperm->n); blob_set(&g_store[ST_VOL], m, mn); }
     TPM_RESULT v = TPMLIB_ValidateState(kind ? (TPMLIB_STATE_PERMANENT | TPMLIB_STATE_VOLATILE) : TPMLIB_STATE_PERMANENT, 0);
     TPM_RESULT mi2 = TPMLIB_MainInit();
-    int infail = g_inFailureMode;
+    int infail = g_inFailureMode; int mi2_blobfail = mi2 != 0 && g_inFailureMode && s_failLine == 0 && s_failFunction == 0;
     int alive2 = mi2 == 0 ? c06_alive(b) : -1;
-    tr("door2 n=%ld validate=%u maininit=%u infail=%d alive=%d", c06_n, v, mi2, infail, alive2);
+    tr("door2 n=%ld validate=%u maininit=%u infail=%d alive=%d blobfail=%d", c06_n, v, mi2, infail, alive2, mi2_blobfail);
     /* afterwards a TPM can still be started normally */
     TPMLIB_Terminate(); storage_reset();
     TPM_RESULT mi3 = TPMLIB_MainInit(); int alive3 = mi3 == 0 ? c06_alive(b) : -1;
@@ -85,6 +111,9 @@ static void c06_mutations(Buf *b, int kind, const Blob *target, const Blob *gper
             snprintf(desc, sizeof desc, "oram-entry@%u ds=%d room=%d", e, ds, room); break; }
         default: { uint32_t o = rnd(mn), len = 1 + rnd(8); for (uint32_t k = 0; k < len && o + k < mn; k++) m[o + k] = rnd(256); snprintf(desc, sizeof desc, "rand@%u+%u", o, len); break; }
         }
+        /* the volatile blob ends in SHA-1(everything before): with the trailer left stale every altered blob is refused at the
+           very end (the parser has run by then); with it recomputed the altered content is what decides */
+        if (kind == 1 && mn > 20 && chance(60)) { SHA1(m, mn - 20, m + mn - 20); strncat(desc, "+sum", sizeof desc - strlen(desc) - 1); }
         uint8_t *exact = malloc(mn ? mn : 1); memcpy(exact, m, mn);      /* exact-size copy: ASan sees reads past the end */
         c06_try(b, kind, exact, mn, gperm, gvol, desc);
         free(exact);
@@ -115,6 +144,18 @@ static void scen_c06(int bases, int prefix_ops, int budget) {
         c06_try(&b, 1, vol.p, vol.n, &perm, &vol, "identity");
         /* the skip-size witness of DESIGN.md section 10-A */
         { uint8_t *m = malloc(perm.n); memcpy(m, perm.p, perm.n); m[perm.n - 6] = 0xff; m[perm.n - 5] = 0xff; c06_try(&b, 0, m, perm.n, &perm, &vol, "last-skip=ffff"); free(m); }
+        /* fields the harness can locate: the context slot mask (a value the unmarshal code restricts to two legal ones) is found by
+           taking the blob twice with the two legal values; every other value must be refused, and what is accepted must work */
+        if (h % 2 == 0) { unsigned m0 = verif_get_slotmask(); unsigned char *q1 = NULL, *q2 = NULL; uint32_t l1 = 0, l2 = 0;
+            verif_set_slotmask(0xffff); TPM_RESULT g1 = TPMLIB_GetState(TPMLIB_STATE_VOLATILE, &q1, &l1);
+            verif_set_slotmask(0x00ff); TPM_RESULT g2 = TPMLIB_GetState(TPMLIB_STATE_VOLATILE, &q2, &l2); verif_set_slotmask(m0);
+            if (!g1 && !g2 && l1 == l2 && l1 > 22) { long at = -1; int nd = 0; for (uint32_t k = 0; k + 20 < l1; k++) if (q1[k] != q2[k]) { if (at < 0) at = k; nd++; }
+                if (at >= 0 && nd == 1) { static const uint16_t V[] = {0x0fff, 0x7fff, 0x01ff, 0xff00, 0x0000, 0x0001, 0x8000, 0xfffe, 0x00fe, 0x00ff, 0xffff, 0x03ff};
+                    for (int vi = 0; vi < 12; vi++) { uint8_t *m = malloc(vol.n); memcpy(m, vol.p, vol.n); long o = q1[at] == 0xff && at > 0 && q1[at - 1] == 0xff ? at - 1 : at;   /* the high byte differs: the field starts there */
+                        if ((uint32_t)o + 2 <= vol.n - 20 && l1 == vol.n) { m[o] = V[vi] >> 8; m[o + 1] = (uint8_t)V[vi]; SHA1(m, vol.n - 20, m + vol.n - 20);
+                            char d[48]; snprintf(d, sizeof d, "slotmask=%u+sum", V[vi]); c06_try(&b, 1, m, vol.n, &perm, &vol, d); }
+                        free(m); } } }
+            free(q1); free(q2); }
         /* one type offered as the other */
         c06_try(&b, 0, vol.p, vol.n, &perm, &vol, "vol-as-perm");
         c06_try(&b, 1, perm.p, perm.n, &perm, &vol, "perm-as-vol");
